@@ -21,6 +21,7 @@ from mc.observe import norm, snap
 from mc.props.c04 import key_repr, pos_keys
 from mc.props.c17 import workdir
 
+from mc.observe import columns_of  # noqa: E402
 PROPERTY_ID = 'C19'
 MODE = 'P + H (differential enumeration: Quilt operation vs the same operation on the concatenated Frame; Batch chains vs per-Frame application)'
 RULE = ('Quilt case = (number of frames, axis, retain_labels, layout, backing): every operation instance is applied to the Quilt and to the reference Frame; '
@@ -59,6 +60,13 @@ def member(i, n, axis, li, kinds='uniform'):
         lays = list(U.layouts(cols))
         sig, blocks = lays[0] if li == 0 else lays[-1]
         return U.frame_from_blocks(blocks, n, index=along, columns=other, name='f%d' % i)
+    if kinds == 'mixed-columns':
+        # axis 1: the columns of ONE member differ in dtype (int64 / float64 / text), so a member-wide array would change a column's type
+        dts = ['int64', 'float64', '<U4']
+        cols = [U.frozen(np.array([100 * i + 10 * j + k for k in range(3)]).astype(dts[(i + j) % 3])) for j in range(n)]
+        lays = list(U.layouts(cols))
+        sig, blocks = lays[0] if li == 0 else lays[-1]
+        return U.frame_from_blocks(blocks, 3, index=other, columns=along, name='f%d' % i)
     cols = [U.frozen(np.array([100 * i + 10 * j + k for k in range(3)], dtype=np.int64)) for j in range(n)]
     lays = list(U.layouts(cols))
     sig, blocks = lays[0] if li == 0 else lays[-1]
@@ -91,9 +99,13 @@ def cases(tier):
                         yield ('quilt', sizes, axis, retain, li, backing)
                         if len(sizes) >= 3 and backing == 'memory':
                             yield ('quilt', sizes, axis, retain, li, backing, 'int-str-int')
+                        if axis == 1 and backing == 'memory' and max(sizes) >= 2:
+                            yield ('quilt', sizes, axis, retain, li, backing, 'mixed-columns')
     for first in range(len(BATCH_OPS)):
         for workers in (None,):
             yield ('batch', first)
+            yield ('batch', first, 'FrameGO')
+            yield ('batch', first, 'FrameHE')
 
 
 def universe(tier):
@@ -119,6 +131,13 @@ def snapany(r):
     if hasattr(r, '__iter__') and not isinstance(r, (str, bytes)):
         return tuple(snapany(x) for x in r)
     return norm(r)
+
+
+def _kind(d):
+    try:
+        return np.dtype(d).kind
+    except Exception:
+        return d
 
 
 def coarse(o):
@@ -204,6 +223,23 @@ def run_quilt(case, ctx):
     ref = ref.rename('bus')
     labels_along = [tuple(x) if retain else x for x in (ref.index if axis == 0 else ref.columns)]
     info = dict(sizes=sizes, axis=axis, retain_labels=retain, layout=li, backing=backing, member_kinds=kinds)
+    if axis == 1:
+        # a column of an axis-1 Quilt lies wholly inside one member: iterated by column it has that member column's dtype (not a member-wide or Quilt-wide one)
+        bus, frames_ = make_bus(sizes, axis, li, backing, kinds)
+        q = sf.Quilt(bus, axis=axis, retain_labels=retain)
+        want = [str(a.dtype) for f in frames_ for a in columns_of(f)]
+        for how, get in (('iter_array(0)', lambda: [str(a.dtype) for a in q.iter_array(axis=0)]), ('iter_array_items(0)', lambda: [str(a.dtype) for _, a in q.iter_array_items(axis=0)]),
+                         ('iter_series(0)', lambda: [str(s_.dtype) for s_ in q.iter_series(axis=0)]), ('items()', lambda: [str(s_.dtype) for _, s_ in q.items()])):
+            ctx.transition()
+            try:
+                got_ = get()
+            except NotImplementedAxis:
+                continue
+            except Exception as e:
+                ctx.violation(f'quilt|column-dtypes|{how}|raises-{type(e).__name__}', **info, error=repr(e))
+                continue
+            if got_ != want:
+                ctx.violation(f'quilt|column-dtypes|{how}', **info, got=got_, expected=want)
     for name, klass, fn in quilt_ops(total, 3, axis, labels_along, retain):
         bus, _ = make_bus(sizes, axis, li, backing, kinds)    # a fresh bus per operation: loading state must not matter, and is varied by the menu order otherwise
         q = sf.Quilt(bus, axis=axis, retain_labels=retain)
@@ -320,15 +356,19 @@ def apply_op(op, target, is_batch, label=None):
 
 
 def run_batch(case, ctx):
-    _, first = case
+    first = case[1]
+    klass = case[2] if len(case) > 2 else 'Frame'
     frames = batch_frames()
+    if klass != 'Frame':
+        # grow-only / hashable members: the Batch treats every Frame subclass (and Series subclass result) as a container, not as an opaque element
+        frames = [f.to_frame_go() if klass == 'FrameGO' else f.to_frame_he() for f in frames]
     for second in [None] + list(range(len(BATCH_OPS))):
         chain = [BATCH_OPS[first]] + ([BATCH_OPS[second]] if second is not None else [])
         names = [c[0] for c in chain]
         ctx.transition()
-        ctx.state(('batch', tuple(names)))
-        ctx.nontriv(('batch', tuple(names)))
-        info = dict(chain=names)
+        ctx.state(('batch', klass, tuple(names)))
+        ctx.nontriv(('batch', klass, tuple(names)))
+        info = dict(chain=names, member_class=klass)
         # reference: per frame
         exp = {}
         exp_err = None
